@@ -12,7 +12,7 @@ RULE = ("Index expressions are generated from a grammar covering every mode of a
         "slice/slice or None/None pairs; apply_mask with an int64 index matrix of M in 0..7 rows with repeats. Oracle: "
         "the same expression applied to the checker's dense contraction - identical shape and bit-equal values, 0-d for "
         "all-int. Non-trivial: >=2 index kinds, or a singleton mode / length-1 slice is hit. Distinct = structural signature.")
-BUDGET = {"quick": 24000, "thorough": 400000}
+BUDGET = {"quick": 24000, "thorough": 600000}
 FLOORS = {"quick": {"kind:none": 1000, "kind:ellipsis": 500, "len1_slice": 500, "singleton_mode": 1000, "operator": 1000,
                     "apply_mask": 1000, "M=1": 50, "bare": 300, "all_int": 300}}
 FUZZ = {"thorough": 80000}     # coverage-guided add-on stage (vt/fuzz.py)
